@@ -138,7 +138,10 @@ def _suggestion(ret):
 
 
 class Latency:
-    """Scheduler-latency / kill-latency model (F5)."""
+    """Scheduler-latency / kill-latency / slow-read model (F5, F12)."""
+
+    def __reduce__(self):
+        return (_stub, ())
 
     def __init__(self, sim, spec, apply):
         self.sim = sim
@@ -153,7 +156,7 @@ class Latency:
             return
         if self.sim.draw("lat?" + tag) < p:
             d = self.spec["scale"] * (0.05 + self.sim.draw("lat" + tag))
-            self.sim.count("fault.F5_latency")
+            self.sim.count("fault.F12_slow_read" if tag == "io" else "fault.F5_latency")
             self.sim.log("latency", tag=tag, d=d)
             self.apply(d)
 
